@@ -253,7 +253,7 @@ func (s *cnSocket) Close() error { s.once.Do(func() { close(s.closed) }); return
 type cnLogger struct{ rec *cnRec }
 
 func (l *cnLogger) Subscribe(ctx context.Context, id string, tags map[string]string) {
-	l.rec.add("S", id, nil, "")
+	l.rec.add("S", id, tags["query"], "")
 }
 func (l *cnLogger) Unsubscribe(ctx context.Context, id string) { l.rec.add("U", id, nil, "") }
 
@@ -400,7 +400,11 @@ func cnRun(cs cnCase) *cnResult {
 		graphql.WithAlwaysSpawnGoroutineFunc(func(context.Context, *graphql.Query) bool { return cs.Seed%2 == 0 }))
 	conn.Use(func(input *graphql.ComputationInput, next graphql.MiddlewareNextFunc) *graphql.ComputationOutput {
 		input.Ctx = context.WithValue(input.Ctx, cnSubIDKey{}, input.Id)
-		return next(input)
+		out := next(input)
+		if out.Error == nil && input.ParsedQuery != nil && input.ParsedQuery.Kind != "mutation" {
+			rec.add("result", input.Id, internal.AsJSON(out.Current), "")
+		}
+		return out
 	})
 	served := make(chan struct{})
 	go func() { conn.ServeJSONSocket(); close(served) }()
